@@ -21,9 +21,11 @@ def main(tier):
     dep.surface_pairing(P, rep)
     segments.line_siblings(P, rep)     # slab and fault are copies of one another: shortcuts, input checks and guards must agree
     divguard.division_guards(P, rep, reach=R)   # denominators that vanish at the degenerate locations the property lists are guarded
-    rep.assumptions.append("finiteness of the returned numbers and absence of division by zero at degenerate points are NOT decided in "
-                           "general (numeric; see DESIGN.md §4 C13); decided are only the shape of some guards: the NaN-absorbing clamp before "
-                           "acos, release-active arity checks of per-section tables, agreement of sibling models on their guards")
+    rep.assumptions.append("finiteness of the returned numbers is NOT decided in general (numeric; DESIGN.md §4 C13, §10.13); decided are: no "
+                           "division in the model functions by a quantity that vanishes at the degenerate locations the property lists unless a "
+                           "controlling condition excludes it (denominators that depend on user parameters only are out of scope), the "
+                           "NaN-absorbing clamp before acos, release-active arity checks of per-section tables, indexed stores within the "
+                           "size of their vector, agreement of sibling models on their guards")
     rep.explanation = ("Termination: every loop on the query path has a recognised bounded shape and the three call-graph cycles "
                        "match the frozen recursion table; every throw is of a std::exception type; guards against out-of-bounds table "
                        "reads and against NaN from acos have the shape that makes them effective; sibling models agree on their guards; "
